@@ -71,6 +71,13 @@ def gtEngine (st : List (Nat × World)) (args : List String) : List (Nat × Worl
          let w : World := { g := g, users := List.replicate n {}, vault := {} }
          (gtStore st sid w, s!"ok | {gtDigest w}"))
     | _, _, _ => (st, "bad-op")
+  | ["uninit", sid, _now, n] =>
+    -- a world whose GT state was never initialised (zeroed account): `grow_step_amount = 0`
+    match allNat [sid, n] with
+    | some [sid, n] =>
+      let w : World := { g := {}, users := List.replicate n {}, vault := {} }
+      (gtStore st sid w, s!"ok | {gtDigest w}")
+    | _ => (st, "bad-op")
   | ["mint", sid, now, uid, amount] =>
     match allNat [sid, uid, amount], pInt now with
     | some [sid, uid, amount], some now =>
